@@ -15,7 +15,7 @@ def scopeOfJson (j : Json) : Scope :=
 def forEachObs (r : Res (Option Val)) : Json :=
   match r with
   | .ok (some (.list _ xs)) => A (xs.map valToJson)
-  | .ok (some (.map _ kvs)) => O [("maporder", A (kvs.map (fun (_, v) => valToJson v)))]
+  | .ok (some (.map mk kvs)) => O [("maporder", A ((Val.iterOrder mk kvs).map (fun (_, v) => valToJson v)))]
   | .ok _ => A []
   | r => resJson (fun _ => Json.null) r
 
